@@ -88,7 +88,7 @@ def run(ctx):
     ctx.ob('R02.2', 'submit_job_desc|ids untouched between', not bad, 'no call between create_task_submit and attach_submit can write JobTaskDescription.ids', sjd.loc(bad[0]) if bad else sjd.loc())
     ctx.note('writers_of_ids', sorted(wids))
     hs = prog.body(SUB + 'handle_submit')
-    fr = hs.call_blocks(INTARRAY + 'from_range') + hs.call_blocks(INTARRAY + 'from_id')
+    fr = sorted(effect_blocks(prog, hs, Effect('fill_ids', callees={INTARRAY + 'from_range', INTARRAY + 'from_id'})))
     sj = hs.call_blocks(SUB + 'submit_job_desc')
     ctx.require(fr and sj, 'R02.2: anchors in handle_submit')
     ctx.ob('R02.2', 'handle_submit|ids filled before submit_job_desc', not (set(fr) & hs.reach_from(sj)), 'auto ids are filled before both sides are built', hs.loc(sj[0]))
